@@ -81,7 +81,6 @@ func chainFamily(t *testing.T, r *mc.Run) {
 					time.Sleep(time.Second)
 				}
 			})
-			r.Add("evaluations", 1)
 			r.Add("chain_cases", 1)
 			r.NonTrivial(fmt.Sprintf("chain|%v|%d", before, allowed))
 			var want []string
